@@ -215,7 +215,7 @@ class Configuration:
         Args:
             values:  List of profiles to use.
         """
-        if values is None:
+        if not values:
             values = [None]
         elif values[-1] is not None:
             values.append(None)
